@@ -18,16 +18,24 @@ def oracle(case):
     k = cfg["kind"]
     if k.startswith("alpha"):
         for e, m in zip(o["aux"], mus):
-            if math.isnan(e) or e < -1e-12 or e > u * (1 + 1e-12):
+            # exact comparison with the bound the caller passed: every shipped estimator ends in a clip / minimum with u
+            if math.isnan(e) or e < 0 or e > u:
                 bad.append("alternative-mean estimate outside [0,u]")
                 break
             if k == "alpha_shrink" and 0 < m < u * (1 - 4 * EPSF) and not e > m:
                 bad.append("shrink-truncate estimate not strictly above the null conditional mean")
                 break
     if k.startswith("bet"):
-        for l, m in zip(o["aux"], mus):
+        mimpl = o.get("m_impl") or []
+        for j, (l, m) in enumerate(zip(o["aux"], mus)):
             if 0 < m <= u and (math.isnan(l) or l < 0 or l > (1 / m) * (1 + 1e-12)):
                 bad.append("bet outside [0, 1/mu_j]")
+                break
+            # exactly, against the null mean the test itself multiplies with: lambda_j * mu_j <= 1 in rational arithmetic
+            # of the two doubles (aGRAPA caps at c/mu_j with c <= 1 - 2^-52, so the rounded quotient times mu_j stays below 1)
+            if k == "bet_agrapa" and j < len(mimpl) and 0 < mimpl[j] <= u and not math.isnan(l) \
+                    and C.frac(l) * C.frac(mimpl[j]) > 1:
+                bad.append("bet times the null conditional mean exceeds 1 (a factor can be negative)")
                 break
     if any((not math.isnan(h)) and h < 0 for h in o["hist"]) or ((not math.isnan(o["p"])) and o["p"] < 0):
         bad.append("negative p-value (a martingale factor was negative)")
@@ -40,8 +48,11 @@ def gen_extreme(rng):
     cfg = nnm.gen_cfg(rng, kind=kind, finite=rng.random() < 0.8)
     if kind == "alpha_optcomp":
         cfg["u"] = 1 + F(1, 2 ** rng.choice([4, 8, 12, 20, 30]))
+        if rng.random() < 0.5:       # the bound of a comparison audit, 2/(2 - v) for an everyday (non-dyadic) margin v
+            v = rng.choice([0.8, 0.5, 0.9, 1 / 3, 0.05, 0.677, 0.2, 0.75, 0.999, 0.1])
+            cfg["u"] = C.frac(2 / (2 - v))
         cfg["t"] = F(1, 2)
-        cfg["p"]["rate_error_2"] = rng.choice([F(0), C.frac(1e-4), F(1, 64), F(1, 8), F(3, 16), F(1, 4)])
+        cfg["p"]["rate_error_2"] = rng.choice([F(0), F(0), C.frac(1e-4), F(1, 64), F(1, 8), F(3, 16), F(1, 4)])
     xs = nnm.gen_xs(rng, cfg, maxlen=14)
     if rng.random() < 0.5:
         n = len(xs)
@@ -96,7 +107,19 @@ def run(ctx, res):
     cr3 = C.run_corr(ctx.pid, "nnm_refill", nnm.IMPORTS, "nnm_case", refill, nnm.case_lit, "agree_nnm", shard=150, show="show_nnm")
     res.corr.append(("NonnegMean.estim/bet/test vs NNM model (second sample through the same buffer object)", cr3, nnm.case_json))
     extra = extra + refill
-    lg = [c for c in nnm.long_cases(ctx.rng, ctx.n(120, 1200), kinds=["alpha_fixed", "alpha_shrink", "bet_fixed", "bet_agrapa", "sprt", "alpha_optcomp"])]
+    # aGRAPA sitting at its cap for thousands of draws in finite populations of awkward size (0/1 data, non-dyadic t):
+    # the exact clause lambda_j * mu_j <= 1 is checked on every one of them (oracle only)
+    capped = []
+    for i in range(ctx.n(40, 300)):
+        N = ctx.rng.choice([65, 130, 1000, 3001, 4999, 7777, 10007])
+        n = min(N, ctx.rng.choice([60, 120, 900, 2500, 3000]))
+        t = C.frac(ctx.rng.choice([0.7, 0.55, 0.6, 0.51, 1 / 3, 0.9]))
+        cfg = {"kind": "bet_agrapa", "N": N, "t": t, "u": F(1), "ro": True, "long": "capped aGRAPA",
+               "p": {"lam": F(1, 2), "c_grapa_0": 1 - nnm.EPS, "c_grapa_max": 1 - nnm.EPS, "c_grapa_grow": F(0)}, "defaults": ["lam", "c_grapa_0", "c_grapa_max", "c_grapa_grow"]}
+        q = ctx.rng.choice([0.9, 0.97, 0.8])
+        xs = [F(1) if ctx.rng.random() < q else F(0) for _ in range(n)]
+        capped.append({"cfg": cfg, "xs": xs, "impl": nnm.run_impl(cfg, xs, variant=2 * i + 1), "tag": "aGRAPA at its cap (oracle only)"})
+    lg = capped + [c for c in nnm.long_cases(ctx.rng, ctx.n(120, 1200), kinds=["alpha_fixed", "alpha_shrink", "bet_fixed", "bet_agrapa", "sprt", "alpha_optcomp"])]
     for c in cases + extra + nd + lg:
         res.evaluations += 1
         res.oracle_runs += 1
